@@ -351,7 +351,7 @@ func c14Pool(c *run.Ctx, r *gen.RNG) {
 	for i := 0; i < steps; i++ {
 		k := r.Intn(len(pool))
 		m := &pool[k]
-		switch r.Intn(9) {
+		switch r.Intn(11) {
 		case 0: // decode a frame into an existing packet of the same Go type
 			a := gen.Packet(r, pickType(m.t), gen.RandomMask(r, pickType(m.t)), gen.Small, gen.Domain{})
 			if a.Type == ref.TConnect && r.Chance(2, 3) {
@@ -458,6 +458,71 @@ func c14Pool(c *run.Ctx, r *gen.RNG) {
 				pool[b].snap = sn
 			}
 			if !check(b, "setter-with-shared-argument") {
+				return
+			}
+		case 9: // one *Publish attached as the will of two CONNECTs; then things happen to one of them
+			// (the three objects stay local: they are linked on purpose, so they
+			// are compared with each other here and not kept in the pool)
+			w := mq.Pub(1, "shared/will", "will payload")
+			w.SetRetain(true)
+			c1, c2 := mq.NewConnect(), mq.NewConnect()
+			c1.SetClientID("one")
+			c2.SetClientID("two")
+			c1.SetWill(w)
+			c2.SetWill(w)
+			c1.SetWillDelayInterval(30)
+			sw, _ := snapshotGuarded(w)
+			s1, _ := snapshotGuarded(c1)
+			trail = append(trail, "one will attached to two CONNECTs; SetWillDelayInterval on the second; decode into the first")
+			same := func(what string, p mq.Packet, before ref.Flat, who string) bool {
+				after, pan := snapshotGuarded(p)
+				if pan == nil && ref.Equal(before, after) {
+					return true
+				}
+				d, _, _ := ref.Diff(before, after)
+				c.Violation("C14/bystander-changed/"+what+"/"+tname(bind.TypeOf(p)), fmt.Sprintf("after %s, %s changed although nothing was done to it: %v", what, who, d), map[string]interface{}{"history": trail})
+				return false
+			}
+			// (a) the second CONNECT gets another delay: the first keeps its own
+			mon.Guard(func() { c2.SetWillDelayInterval(120) })
+			c.Eval(1)
+			if !same("will-delay-on-sibling-connect", c1, s1, "the first CONNECT") || !same("will-delay-on-sibling-connect", w, sw, "the will message") {
+				return
+			}
+			s2, _ := snapshotGuarded(c2)
+			// (b) a CONNECT frame with a will is decoded into the first CONNECT:
+			// the application's own *Publish and the sibling are not its business
+			a := gen.Packet(r, ref.TConnect, gen.RandomMask(r, ref.TConnect)|1<<5, gen.Small, wfDomain)
+			f, _ := ref.Encode(a)
+			h, _ := ref.ParseHeader(f)
+			if pan := mon.Guard(func() { c1.UnmarshalBinary(f[h.HdrLen:]) }); pan != nil {
+				return
+			}
+			c.Eval(1)
+			if !same("decode-into-connect-holding-shared-will", w, sw, "the application's will message") || !same("decode-into-connect-holding-shared-will", c2, s2, "the second CONNECT") {
+				return
+			}
+			if !check(-1, "shared-will-scenario") {
+				return
+			}
+		case 10: // one secret slice given to two CONNECTs; one of them is then given another
+			secret := []byte("s3cr3t-" + itoa(i))
+			c1, c2 := mq.NewConnect(), mq.NewConnect()
+			c1.SetPassword(secret)
+			c2.SetPassword(secret)
+			s2, _ := snapshotGuarded(c2)
+			trail = append(trail, "one password slice for two CONNECTs, then SetPassword(other)/SetPassword(nil) on the first")
+			mon.Guard(func() {
+				if r.Bool() {
+					c1.SetPassword([]byte("another"))
+				} else {
+					c1.SetPassword(nil)
+				}
+			})
+			c.Eval(1)
+			if after, pan := snapshotGuarded(c2); pan != nil || !ref.Equal(s2, after) {
+				d, _, _ := ref.Diff(s2, after)
+				c.Violation("C14/bystander-changed/setter-with-shared-argument/CONNECT", fmt.Sprintf("two CONNECTs were given one password slice; replacing the password of the first changed the second: %v", d), map[string]interface{}{"history": trail})
 				return
 			}
 		case 8: // the program overwrites a byte slice an accessor handed out (wiping a password, reusing a payload buffer)
